@@ -80,3 +80,9 @@ reg('C12', 'runtime monitoring: reference-model oracle for namespace rules on na
     'compared with the reference namespace rules evaluated on a snapshot of the same tree with the same map.',
     'Trusted: vlib/refsel.py m_tag/attr_value; prefixes never share a URI with the in-scope default namespace (bs4 then '
     'reports the attribute under a bare name); non-subject type-less compounds under a default namespace are unspecified.')
+reg('C13', 'runtime monitoring: independent RFC 4647 filter + language-determination reference, exhaustive (range, tag) alphabet',
+    'Every (range, tag) pair over a small subtag alphabet (ranges <= 3/4 subtags incl. wildcards, tags <= 4/5 subtags, '
+    'the empty range and tag; quoted, escaped and list spellings; lang and xml:lang) is decided by the real match() '
+    'and compared with an own implementation of RFC 4647 3.3.2 plus the CSS special cases; generated HTML/XHTML/XML/'
+    'iframe documents sweep where the language comes from (ancestor chain, lang="", <meta> pragma variants).',
+    'Trusted: vlib/reflang.py; the pragma is compared only for whole non-XML HTML documents (elsewhere unspecified).')
